@@ -1364,11 +1364,21 @@ class Nexus(object):
             )
 
         # add dependent node `name` as a parent of each node in `depends_on`
+        _new_dep_nodes = []
         for _dep in depends_on:
-            _node.add_child(self.get(_dep))
+            _dep_node = self.get(_dep)
+            if _dep_node not in _node.get_children():
+                _new_dep_nodes.append(_dep_node)
+            _node.add_child(_dep_node)
 
         # check for cycles
-        NodeCycleChecker(_node).run()
+        try:
+            NodeCycleChecker(_node).run()
+        except ValueError:
+            # do not leave a cyclic graph behind
+            for _dep_node in _new_dep_nodes:
+                _node.remove_child(_dep_node)
+            raise
 
     def get(self, node_name):
         """Retrieve a node by its name or ``None`` if no such node exists.
